@@ -198,3 +198,27 @@ def int_partition(fn, is_scrut, lo, hi, allow_other_conds=False):
     if cur != hi + 1:
         raise Unanalysable(f"{fn.path}: paths do not cover the domain above {cur}")
     return res, pr
+
+
+class PathProv(P.Prov):
+    """provenance restricted to one acyclic path: a local assigned on the path denotes its last
+    assignment on the path (path-sensitive), other locals fall back to the flow-insensitive view."""
+
+    def __init__(self, fn, path):
+        super().__init__(fn)
+        on_path = set(path.blocks)
+        newdefs = {}
+        for l, ds in self.defs.items():
+            here = [d for d in ds if d[0] in on_path]
+            if here:
+                # last in path order
+                order = {b: i for i, b in enumerate(path.blocks)}
+                here.sort(key=lambda d: (order[d[0]], -1 if d[1] is None else d[1]))
+                newdefs[l] = [here[-1]]
+            else:
+                newdefs[l] = ds
+        self.defs = newdefs
+
+
+def path_term(fn, path, local):
+    return PathProv(fn, path).local(local)
